@@ -646,6 +646,15 @@ def check_split(V, ex, b, kids, cargs, entries):
                    "queries reach the points of a split leaf only through node.left / node.right: a child that is not referenced is never visited")
         else:
             V.ok("lr", "C11-S1", "node.left / node.right are the two children ids")
+            # facts the queries may rely on when they prune with the splitting plane instead of the boxes:
+            # which child holds the points with coordinate <= split value, and that the node records the plane the points were split at
+            if info is not None:
+                low_of = {k.id: info["low"][i] for i, k in enumerate(kids)}
+                plane = getattr(V.ctx, "_hg_kd_plane", {"left_low": set(), "recorded": set()})
+                plane["left_low"].add(low_of.get(lr[0]))
+                ax, val = nargs.get("split_axis"), nargs.get("split_value")
+                plane["recorded"].add(ax is not None and val is not None and ex.text(ax) == ex.text(info["axis"]) and ex.text(val) == ex.text(info["value"]))
+                V.ctx._hg_kd_plane = plane
     # ---------------- child axis stays a column
     dim = st.heap.get("self.dim")
     for k, a in zip(kids, cargs):
@@ -944,13 +953,45 @@ def check_bounded_loops(V, ex, fn, worklist_loops):
                     and not any(isinstance(a, (ast.For, ast.While)) and a is not w for a in au.ancestors(n) if a is not w and w in list(au.ancestors(a))):
                 exits.extend(n.test.values if isinstance(n.test, ast.BoolOp) and isinstance(n.test.op, ast.Or) else [n.test])
         bounded = False
-        for e in exits:
+        weak = False
+
+        def counter_compare(e):
             e2, _ = au.strip_not(e, True)
             if isinstance(e2, ast.Compare) and len(e2.ops) == 1 and isinstance(e2.ops[0], (ast.Lt, ast.LtE, ast.Gt, ast.GtE)):
                 sides = [e2.left, e2.comparators[0]]
                 for a, b_ in (sides, sides[::-1]):
                     if isinstance(a, ast.Name) and a.id in counters and not (au.names(b_) & assigned):
-                        bounded = True
+                        return True
+            return False
+        for e in exits:
+            if counter_compare(e):
+                bounded = True
+            elif any(counter_compare(x) for x in ast.walk(e) if isinstance(x, (ast.Compare, ast.UnaryOp))):
+                weak = True         # the bound on the counter only counts together with another condition
+        # a container emptied by the loop (popped at every turn, never refilled) bounds it as well
+        tnames = au.names(w.test)
+        for nme in tnames:
+            pops = [c for st_ in w.body for c in au.calls(st_) if isinstance(c.func, ast.Attribute) and isinstance(c.func.value, ast.Name)
+                    and c.func.value.id == nme and c.func.attr in ("pop", "popleft") and any(c is x for x in au.calls(st_)) and st_ in w.body]
+            refills = [c for c in au.calls(ast.Module(body=w.body, type_ignores=[])) if isinstance(c.func, ast.Attribute) and isinstance(c.func.value, ast.Name)
+                       and c.func.value.id == nme and c.func.attr in ("append", "appendleft", "extend", "extendleft", "insert", "add")]
+            if pops and not refills and nme not in assigned:
+                bounded = True
+        # a loop that draws the split again: its test reads values that its body computes again by calling a method of the class
+        redrawn = set()
+        for n in au.walk(ast.Module(body=w.body, type_ignores=[])):
+            if isinstance(n, ast.Assign) and isinstance(n.value, ast.Call) and isinstance(n.value.func, ast.Attribute) \
+                    and isinstance(n.value.func.value, ast.Name) and n.value.func.value.id == "self":
+                for t in n.targets:
+                    redrawn.update(au.assigned_names(t))
+        retry = bool(redrawn & au.names(w.test))
+        other_exits = [e for e in exits if not (au.names(e) & redrawn) and not any(counter_compare(x) for x in ast.walk(e))]
+        if not bounded and retry and (weak or not other_exits):
+            V.fail("bounded", "C11-T1", "a loop of the construction that draws the split again is not bounded by its number of tries"
+                   + (" (the bound on the counter only applies together with another condition)" if weak else ""),
+                   "the pivot is a random draw for some strategies and some point sets can never be separated (identical points): a retry loop whose "
+                   "exit depends on the outcome of the draw, or on a test of the data, need not terminate - the number of tries must bound it on its own")
+            continue
         if bounded:
             V.ok("bounded", "C11-T1", "retry loop bounded by a counter")
         else:
